@@ -6,8 +6,8 @@ import nqlib
 from nqlib import Check, VERIF, NCPU, run_pipeline, parse_driver_output, standard_verdict, driver_path, shortest, kv
 
 RULE = ("H1 (real quote.c, token822.c, qmail-remote.c addrmangle, commands.c, qmail-smtpd.c addrparse; ASan+UBSan build of the working tree): "
-        "every local part over the 17-byte alphabet {a . @ \" \\ SP CR TAB ( ) < > [ ] : ; 0x80} up to length %(q)d (all 8 domains below the top length, "
-        "one at the top length), quoted by quote2/addrmangle and parsed back by token822_parse+unquote and by commands()+addrparse(); every string over the "
+        "every local part over the 17-byte alphabet {a . @ \" \\ SP CR TAB ( ) < > [ ] : ; 0x80} up to length %(q)d (all 8 domains up to length %(q)d-2, "
+        "one at the two top lengths), quoted by quote2/addrmangle and parsed back by token822_parse+unquote and by commands()+addrparse(); every string over the "
         "15-byte token alphabet {a SP , < > ( ) \" \\ : ; @ . [ ]} up to length %(p)d as a field body through token822_parse/unquote/unparse(80 and 3..7)/"
         "re-parse/addrlist; seeded random long local parts (to 920 bytes, all bytes but NUL/LF), address lists from the RFC 822 grammar generator "
         "(expected mailboxes known by construction), token soup. H2 (real qmail-inject.c main with headerbody.c, hfield.c, newfield.c and a stand-in queue): "
@@ -24,39 +24,44 @@ SMTPD_EXCLUDE = ["ipme.o"]
 Q_EXTRA = ("timeoutconn.o tcpto.o dns.o quote.o token822.o ndelay.a lock.a stralloc.a substdio.a error.a str.a fs.a open.a `cat dns.lib`")
 I_EXCLUDE = ["newfield.o", "control.o", "qmail.o"]
 
-# fallback for the open finding until it is listed in the shared known_findings.json (same schema)
-LOCAL_FINDINGS = [{
-    "id": "C17-angle-comment", "property": "C17", "status": "open", "match": "class=angle-comment",
-    "what": ("qmail-inject/token822_addrlist: a comment inside <...> is handed to the rewriting callback as part of the address, so a comment "
-             "right after '<' defeats source-route stripping (\"To: <(c)@r:u@h>\" puts \"@r:u@h.defaultdomain\" in the envelope) and a comment right "
-             "before '>' defeats the plus-domain / trailing-dot rules (\"To: <u@h+(c)>\" gives \"u@h+.defaultdomain\" instead of \"u@h.plusdomain\")"),
-}]
-
-
-def known_class(line):
-    for f in LOCAL_FINDINGS:
-        if f["match"] in line:
-            return f
+def case_line(f):
+    """the stdin case that reproduces a DISAGREE/ORACLE line (kv dict)"""
+    k = f.get("kind", "")
+    if k.startswith("Q"):
+        return "Q %s %s" % (f["in"], f["dom"])
+    if k.startswith("P"):
+        return "P %s %s %s" % (f.get("n", "80"), f["in"], f.get("E", "X"))
+    if k.startswith("I") and k != "I2":
+        return "I %s %s %s %s %s %s %s" % (f["flags"], f["strat"], f["f"], f["args"], f["env"], f["in"], f.get("E", "X"))
     return None
 
 
-def report_known(c, lines):
-    """known-class oracle failures: through the shared mechanism if listed there, else the local fallback"""
-    by = {}
-    for l in lines:
-        by.setdefault(known_class(l)["id"], []).append(l)
-    listed = {f["id"] for f in nqlib.known_findings(c.prop)}
-    for fid, ls in by.items():
-        first = shortest(ls)
-        if fid in listed:
-            c.violation("known finding reproduced", {"failing_case": kv(first), "raw": first[:4000]}, found_input=True)
-        else:
-            f = [x for x in LOCAL_FINDINGS if x["id"] == fid][0]
-            if fid not in c.known_printed:
-                c.known_printed.append(fid)
-                print("KNOWN-FINDING: property=%s %s" % (c.prop, f["what"]))
-        c.cov.setdefault("known_finding_cases", {})[fid] = len(ls)
-        c.cov.setdefault("known_finding_example", {})[fid] = first[:1500]
+def replay_file(path, tmpdir):
+    """--replay accepts a file of stdin cases or a replays/C17-*.json written by a VIOLATION"""
+    try:
+        d = json.load(open(path))
+    except ValueError:
+        return path
+    lines = []
+    fc = d.get("failing_case")
+    if isinstance(fc, dict):
+        try:
+            l = case_line(fc)
+            if l:
+                lines.append(l)
+        except KeyError:
+            pass
+    for b in d.get("broken", []):
+        for dis in b.get("first_disagreements", []):
+            try:
+                l = case_line(kv(dis))
+                if l:
+                    lines.append(l)
+            except KeyError:
+                pass
+    out = os.path.join(tmpdir, "replay_cases.txt")
+    open(out, "w").write("\n".join(lines) + "\n")
+    return out
 
 
 def mutate_hex(hx, rnd, alphabet):
@@ -106,8 +111,8 @@ def main():
     ok = c.proofs("Nq.Props.C17", drivers=["drv_c17"])
     s = c.build_repo()
     quick = c.tier == "quick"
-    par = {"q": 5 if quick else 6, "p": 5 if quick else 6, "s": 40000 if quick else 600000, "m": 20000 if quick else 300000}
-    nrandq = 60000 if quick else 1500000
+    par = {"q": 5 if quick else 6, "p": 5 if quick else 6, "s": 40000 if quick else 300000, "m": 20000 if quick else 150000}
+    nrandq = 60000 if quick else 800000
     stats, samples, disagree, oracle, errors = {}, [], [], [], []
     hq = hi = None
     drv = driver_path("drv_c17")
@@ -120,7 +125,8 @@ def main():
             cmds = []
             corpus = os.path.join(VERIF, "corpus", "C17.txt")
             if c.replay:
-                cmds += ["%s - < %s" % (hq, c.replay), "%s - < %s" % (hi, c.replay)]
+                rp = replay_file(c.replay, s.dir)
+                cmds += ["%s - < %s" % (hq, rp), "%s - < %s" % (hi, rp)]
             else:
                 if os.path.exists(corpus):
                     cmds += ["%s - < %s" % (hq, corpus), "%s - < %s" % (hi, corpus)]
@@ -134,9 +140,6 @@ def main():
             errors.append(str(ex))
     else:
         errors.append("build failed: " + "\n".join(c.notes)[-3000:])
-
-    known = [o for o in oracle if known_class(o)]
-    oracle = [o for o in oracle if not known_class(o)]
 
     def neighbourhood(dis):
         """focused search: mutations of the disagreeing inputs, then a larger seeded run of both harnesses"""
@@ -153,7 +156,6 @@ def main():
         o2 = run_pipeline(cmds2, drv)
         st2, _, _, or2, _ = parse_driver_output(o2)
         c.cov["search_cases"] = int(st2.get("cases", 0))
-        or2 = [o for o in or2 if not known_class(o)]
         return shortest(or2) if or2 else None
 
     c.cov["evaluations"] = int(stats.get("cases", 0))
@@ -171,8 +173,6 @@ def main():
         "ipme_is() is replaced by {127.0.0.1, 0.0.0.0}; control/localiphost = lip.example",
         "substdio buffering is transparent (stdin is served in 37-byte chunks)",
     ]
-    if known:
-        report_known(c, known)
     if not (hq and hi) and not errors:
         errors.append("harness not built")
     # proof / translator / correspondence broken but no failing input yet: run the focused search now
@@ -187,7 +187,7 @@ def main():
                      "quote2/parse/unquote/unparse/addrlist/addrmangle/addrparse/inject (Nq/Quote.lean, Token822.lean, SmtpAddr.lean, Inject.lean) "
                      "vs quote.c, token822.c, qmail-remote.c, commands.c, qmail-smtpd.c, qmail-inject.c, headerbody.c, hfield.c",
                      None,
-                     replay_hint="./check C17 --replay <file of stdin cases: 'Q <local hex> <domain hex>' | 'P <linelen> <hex> [E]' | 'I …' as printed by harness/c17_inject.c>")
+                     replay_hint="./check C17 --replay <this file>  (or a file of stdin cases: 'Q <local hex> <domain hex>' | 'P <linelen> <hex> [E]' | 'I …' as printed by harness/c17_inject.c)")
     c.finish()
 
 
